@@ -26,7 +26,8 @@ class Model:
         n = len(kinds)
         self.E = [Sym(f'EXPR{i}') for i in range(n)]
         self.TG = [Sym(f'TARGET{i}') for i in range(n)]
-        self.NAMES = [None if k.endswith('hidden') else 'abcdefgh'[i] for i, k in enumerate(kinds)]
+        # output names repeat (two targets named a): what is per target must not be keyed by name
+        self.NAMES = [None if k.endswith('hidden') else 'abacadae'[i] for i, k in enumerate(kinds)]
         self.AGGS = {}
         self.KEYS = []
         for i, k in enumerate(kinds):
@@ -95,7 +96,8 @@ def engine(P, *, where=(False, None), group_indexes=None, having=None, having_cl
             return T('tuple', (SList(), SList(list(M.AGGS.get(args[0], [])))))
         if last == 'Allocator' and not args:
             return ALLOC
-        if last == 'defaultdict' and len(args) == 1:
+        if last == 'defaultdict' and len(args) == 1 and isinstance(args[0], T) and args[0].op in ('func', 'lambda'):
+            # the group container: a mapping whose missing keys are made by a local function
             return T('new', ('defaultdict', args[0]))
         if f in ('dict', 'collections.OrderedDict', 'OrderedDict') and not args and not kwargs:
             return T('dict', ())
